@@ -95,10 +95,21 @@ def gen_case(rng, tier):
         return {"kind": kind, "na": na, "nb": nb, "nb_form": rng.choice(['pos', 'kw', 'omit'] if na == nb else ['pos', 'kw'])}
     if kind == 'comb':
         n = rng.randint(1, 6)
-        form = rng.choice(['int', 'list', 'tuple', 'set' if False else 'list'])
+        # every Collection spelling of the variables (round-6 miss C17 r6m1: a range that is not range(0, m) treated
+        # like the integer case): range with any start / step, str, frozenset, dict, dict keys view, Variables
+        form = rng.choice(['int', 'list', 'tuple', 'list', 'range', 'range', 'str', 'frozenset', 'dict', 'keys', 'variables'])
         labels = rng.sample(POOL, n) if form != 'int' else list(range(n))
+        rng_spec = None
+        if form == 'range':
+            start, step = rng.choice([-2, 0, 1, 3, 5]), rng.choice([1, 1, 2, 3, -1, -2])
+            if start == 0 and step == 1:
+                start = 2
+            rng_spec = [start, start + step * n, step]
+            labels = list(range(*rng_spec))
+        elif form == 'str':
+            labels = rng.sample(list('abcxyzqr'), n)
         k = rng.randint(0, n)
-        return {"kind": kind, "n": n, "form": form, "labels": [enc_label(x) for x in labels], "k": k,
+        return {"kind": kind, "n": n, "form": form, "labels": [enc_label(x) for x in labels], "k": k, "range": rng_spec,
                 "bad_k": rng.choice([None, None, None, n + 1, -1]),
                 "strength": rng.choice(STRENGTHS + [None]), "vartype": rng.choice(['BINARY', 'SPIN', None])}
     # mwis family
@@ -279,7 +290,11 @@ def run_comb(c):
     n, k = c["n"], c["k"]
     labels = [dec_label(x) for x in c["labels"]]
     feats = {"kind": "comb", "form": c["form"], "vartype": c["vartype"]}
-    arg = n if c["form"] == 'int' else (tuple(labels) if c["form"] == 'tuple' else list(labels))
+    form = c["form"]
+    arg = (n if form == 'int' else tuple(labels) if form == 'tuple' else range(*c["range"]) if form == 'range'
+           else ''.join(labels) if form == 'str' else frozenset(labels) if form == 'frozenset'
+           else dict.fromkeys(labels, 7) if form == 'dict' else dict.fromkeys(labels).keys() if form == 'keys'
+           else dimod.variables.Variables(labels) if form == 'variables' else list(labels))
     kw = {}
     s = Fraction(1)
     if c["strength"] is not None:
